@@ -5,6 +5,19 @@
 #include "lsv.h"
 #include "matrix.h"
 #include "mlr.h"
+#include "algebra.h"
+#if defined(HP_OLS_CONTRACT) && HP_OLS_CONTRACT
+/* compositional variant: OrdinaryLeastSquares is replaced by its contract - coefficients (one per design column, written into a vector
+ * it sizes itself) that satisfy the normal equations Z'(y - Z b) = 0 for the design it is GIVEN. What MLR does around it (design with
+ * a column of ones, one call per response, coefficient columns, fitted values, residuals, R2, SDEC, means, predictions) is the real
+ * code. The contract itself is C12 ols/* (decided for one-column designs; for two columns it is undecided at the quick budget since
+ * the inversion repair introduced row exchanges). */
+void OrdinaryLeastSquares(matrix *z, dvector *y, dvector *b){
+  DVectorResize(b, z->col);
+  for(size_t j=0;j<z->col;j++) b->data[j]=in_double(-1e9,1e9);
+  for(size_t j=0;j<z->col;j++){ double s=0; for(size_t i=0;i<z->row;i++){ double f=0; for(size_t q=0;q<z->col;q++) f+=z->data[i][q]*b->data[q]; s+=z->data[i][j]*(y->data[i]-f); } ASSUME(s==0.0); }
+}
+#endif
 void harness(void){
   matrix *x,*y; NewMatrix(&x,HP_N,HP_P); NewMatrix(&y,HP_N,HP_NY);
   for(size_t i=0;i<HP_N;i++){ for(size_t j=0;j<HP_P;j++) x->data[i][j]=in_double(-1e3,1e3); for(size_t k=0;k<HP_NY;k++) y->data[i][k]=in_double(-1e3,1e3); }
